@@ -4,10 +4,12 @@
   (/repo/http/tokenV2/middleware.go).  net/http (contract, exercised over raw TCP): every line is `name ":" value`; the name
   is canonicalised (textproto.CanonicalMIMEHeaderKey: first letter and every letter after a '-' upper case, the others lower
   case), blanks and tabs around the value are dropped; `Header.Get` returns the value of the FIRST line with that name
-  ("" when there is none).  Not modelled: continuation lines (obs-fold), names with bytes outside the token alphabet and
-  lines without a colon (net/http answers 400 before any handler runs).  Core Lean only.
+  ("" when there is none).  A line that starts with a blank or tab continues the line before it (obs-fold: joined with one
+  blank); a block that starts with such a line, a line without colon, a name that is empty or has a byte outside the token
+  alphabet, a value with a control byte: net/http answers 400 before any handler runs (`headerValue = none`).  Core Lean only.
 -/
 import NutsModel.C04.Token
+import NutsModel.C04.Limiter
 
 namespace Nuts.C04
 
@@ -48,5 +50,52 @@ def authorizationKey : Str := "Authorization".toList
 def headerDecision (P : Policy) (audience : String) (keys : List AuthKey) (now : Int) (lines : List Str) (analysis : Str → Analysis) : Decision :=
   let v := headerGet authorizationKey lines
   tokenDecision P audience keys now v (analysis v)
+
+/-! ### the whole block as net/http reads it (textproto.ReadMIMEHeader + the server's validity checks) -/
+
+def isTokenC (c : Char) : Bool :=
+  ('a' ≤ c && c ≤ 'z') || ('A' ≤ c && c ≤ 'Z') || ('0' ≤ c && c ≤ '9') || "!#$%&'*+-.^_`|~".toList.contains c
+
+/-- httpguts.ValidHeaderFieldName -/
+def validName (n : Str) : Bool := n ≠ [] && n.all isTokenC
+
+/-- httpguts.ValidHeaderFieldValue: no control bytes except TAB (bytes ≥ 0x80 pass) -/
+def validValueC (c : Char) : Bool := c = '\t' || (c.toNat ≥ 0x20 && c.toNat ≠ 0x7f)
+
+/-- continuation lines joined to the line they continue (readContinuedLineSlice: both sides trimmed, one blank between) -/
+def unfoldAux (cur : Str) : List Str → List Str
+  | [] => [cur]
+  | l :: rest =>
+    match l with
+    | c :: _ => if isBlankC c then unfoldAux (trimBlank cur ++ ' ' :: trimBlank l) rest else cur :: unfoldAux l rest
+    | [] => cur :: unfoldAux l rest
+
+/-- `none`: the block starts with a continuation line ("malformed MIME header initial line") -/
+def unfoldLines : List Str → Option (List Str)
+  | [] => some []
+  | l :: rest =>
+    match l with
+    | c :: _ => if isBlankC c then none else some (unfoldAux l rest)
+    | [] => some (unfoldAux l rest)
+
+def lineOK (l : Str) : Bool :=
+  match splitLine l with
+  | some (n, v) => validName n && (trimBlank v).all validValueC
+  | none => false
+
+/-- what the middleware gets from `Header.Get(key)` for a header block as written; `none` = the request is answered 400 by
+    net/http and no handler (no middleware) runs -/
+def headerValue (key : Str) (lines : List Str) : Option Str :=
+  match unfoldLines lines with
+  | none => none
+  | some ls => if ls.all lineOK then some (headerGet key ls) else none
+
+/-- one request given by its request line AND its header block, on the chain guard -> limiter -> router -/
+def serveConnH (P : Policy) (audience : String) (keys : List AuthKey) (now : Int) (analysis : Str → Analysis)
+    (authOK : Str → Bool) (sel : Selector) (authPath : Str) (authOn : Bool) (lim : LimCfg) (regs : List Registered)
+    (lines : List Str) (method : String) (target : Str) (b : Nat) : Response × Nat :=
+  match headerValue authorizationKey lines with
+  | none => ({ status := 400, ran := none, user := none }, b)
+  | some v => serveConnL authOK sel authPath authOn lim regs (tokenDecision P audience keys now v (analysis v)) method target b
 
 end Nuts.C04
